@@ -85,13 +85,44 @@ Fixpoint dec_lines (k : nat) (dlen : Z) (irest : list Z) (ipos irem zlin lines :
 (* sc_array_resize (out, size / elem_size) on an OWNER of `size` bytes allocates SC_ROUNDUP2_64 (size) =
    1LL << (SC_LOG2_64 (size - 1) + 1) bytes.  For size > 2^63 the shift count is 64 - undefined in C; gcc on
    x86-64 shifts by the count modulo 64 and the allocation has ONE byte (observed with ASan: finding
-   declared-size-over-2^62).  Otherwise the model keeps exactly `size` bytes: the surplus of the rounding is
+   declared-size-over-2^62, repaired by 5c6a588: the guard dec_guard_ratio makes such sizes unreachable for
+   inputs below 2^51 bytes).  Otherwise the model keeps exactly `size` bytes: the surplus of the rounding is
    never relied upon, and a failing allocation aborts the process (no memory access). *)
 Definition owner_capacity (size : Z) : Z := if 9223372036854775808 <? size then 1 else size.
 
 (* `unc src dest_size dest_cap dest_nil`: the decompressor of the build
    (sc_io_nonuncompress, or zlib's uncompress followed by the length check) *)
 Definition sc_decode_with (unc : list Z -> Z -> Z -> bool -> res (list Z))
+           (data : list Z) (out : outdesc) (maxsz : Z) : res (Z * list Z) :=
+  let encoded_size := len data in
+  if encoded_size =? 0 then Err (-1) else
+  last <- rd data (encoded_size - 1) ;;
+  if negb (last =? 0) then Err (-1) else
+  let lines := dec_base64_lines encoded_size in
+  let csize := dec_compressed_size lines in
+  if dec_guard_short encoded_size lines then Err (-1) else
+  let irem := dec_irem encoded_size lines in
+  '(comp, ocnt) <- dec_lines (Z.to_nat lines) encoded_size data 0 irem 0 lines [] 0 csize (repeat 0 76) d_init ;;
+  if ocnt <? 9 then Err (-1) else
+  fc <- rd comp 8 ;;
+  if negb (fc =? 122) then Err (-1) else
+  hdr <- slice comp 0 8 ;;
+  let size := be_value hdr 0 in
+  if dec_guard_ratio size ocnt then Err (-1) else           (* commit 5c6a588: size / 1032 > ocnt is refused *)
+  if negb (size mod o_esz out =? 0) then Err (-1) else
+  if (0 <? maxsz) && (maxsz <? size) then Err (-1) else
+  if negb (o_owner out) && (u64 (o_cnt out * o_esz out) <? size) then Err (-1) else
+  (* sc_array_resize (out, size / elem_size): an owner now holds `size` bytes (array == NULL when 0),
+     a view keeps its memory *)
+  let dest_cap := if o_owner out then owner_capacity size else o_cnt out * o_esz out in
+  let dest_nil := o_owner out && (size =? 0) in
+  src <- slice comp 9 (u64 (ocnt - 9)) ;;
+  bytes <- unc src size dest_cap dest_nil ;;
+  Ok (size / o_esz out, bytes).
+
+(* the function as it was before commit 5c6a588 (no bound on the declared size): kept only for the regression
+   theorem C07_decode_old_refuted *)
+Definition sc_decode_with_old (unc : list Z -> Z -> Z -> bool -> res (list Z))
            (data : list Z) (out : outdesc) (maxsz : Z) : res (Z * list Z) :=
   let encoded_size := len data in
   if encoded_size =? 0 then Err (-1) else
@@ -121,6 +152,8 @@ Definition sc_decode_with (unc : list Z -> Z -> Z -> bool -> res (list Z))
 (* the build without zlib *)
 Definition sc_decode (data : list Z) (out : outdesc) (maxsz : Z) : res (Z * list Z) :=
   sc_decode_with nonuncompress data out maxsz.
+Definition sc_decode_old (data : list Z) (out : outdesc) (maxsz : Z) : res (Z * list Z) :=
+  sc_decode_with_old nonuncompress data out maxsz.
 
 (* the build with zlib: uncompress (dest, &uncompsize = size, src, len) then `uncompsize != size` *)
 (* uncompress may write anywhere in dest[0 .. size): the destination must really have `size` bytes *)
